@@ -731,6 +731,20 @@ def RC(ts, **k): return dict({'op': 'recheck', 'targets': ts}, **k)
 
 DEF = {'algo': 0, 'method': 'copy', 'tob': 'auto'}
 CORPUS = [
+    # seeded changes C17-2 / C17-5: `recheck --force --as M` on a path whose workspace entry differs from the committed content (an
+    # edited copy, a link replaced by a file of the user) must use AND record M, and later rechecks without a method keep using it
+    ('forced-method-on-edited-copy', DEF, [W('data.txt', b'v1\n'), T(['data.txt']), W('data.txt', b'v1 edited\n'), RC(['data.txt'], method='symlink', force=True),
+                                           {'op': 'delete', 'path': 'data.txt'}, RC(['data.txt'])]),
+    ('forced-method-on-replaced-link', DEF, [W('other.txt', b'o1\n'), T(['other.txt'], method='symlink'), W('other.txt', b'a file of the user\n'),
+                                             RC(['other.txt'], method='hardlink', force=True), {'op': 'delete', 'path': 'other.txt'}, RC(['other.txt'])]),
+    ('forced-method-on-edited-hardlink', DEF, [W('h.bin', b'h\x001'), T(['h.bin'], method='hardlink'), W('h.bin', b'h\x002 edited'), RC(['h.bin'], method='copy', force=True),
+                                               {'op': 'delete', 'path': 'h.bin'}, RC(['h.bin'])]),
+    # seeded change C04-5 (and C05-1): an object that is only an EARLIER version of a still tracked path is protected from untrack / remove
+    # of another path that has it as its current (or any) version
+    ('untrack-spares-earlier-version-of-other', DEF, [W('a.txt', b'X content\n'), T(['a.txt']), {'op': 'copy', 'src': 'a.txt', 'dst': 'b.txt'}, W('b.txt', b'Y content\n'), CI(['b.txt']),
+                                                      {'op': 'untrack', 'targets': ['a.txt']}]),
+    ('remove-spares-earlier-version-of-other', DEF, [W('a.txt', b'X content\n'), W('b.txt', b'X content\n'), T(['a.txt', 'b.txt'], no_parallel=True), W('b.txt', b'Y content\n'), CI(['b.txt']),
+                                                     {'op': 'remove', 'targets': ['a.txt']}]),
     # seeded change C01-5: carry-in with a tracked file missing from the workspace (the unchanged code panics on an assertion before
     # anything is recorded; a carry-in that goes on must not record the missing file as gone: recheck still restores it)
     ('carryin-with-missing-target', DEF, [W('a.bin', b'bin\x00\r\nary'), W('b.txt', b'v1\n'), T(['a.bin', 'b.txt']), {'op': 'delete', 'path': 'a.bin'},
